@@ -37,25 +37,80 @@ def _models_in(kw):
     return out
 
 
-def _model_snapshot(m):
+def _model_snapshot(m, X=None):
     if isinstance(m, (list, tuple)):
-        return ("list", tuple(_model_snapshot(x) for x in m))
-    return ("est", snap.canon(m.get_params(deep=True)), snap.canon(dict(vars(m))))
+        return ("list", tuple(_model_snapshot(x, X) for x in m))
+    pred = None
+    if X is not None:
+        # predictions of an already fitted model (deterministic part only: probabilities / frequencies / means)
+        for meth in ("predict_freq", "predict_proba", "predict"):
+            if hasattr(m, meth) and not (meth == "predict" and hasattr(m, "predict_proba")):
+                try:
+                    pred = (meth, snap.canon(_call(getattr(m, meth), X=X)))
+                except Exception:
+                    pred = None
+                break
+    # the model's own generator is legitimately advanced by predict (tie breaking): not part of the comparison
+    state = {k: v for k, v in vars(m).items() if not isinstance(v, (np.random.RandomState, np.random.Generator))}
+    return ("est", snap.canon(m.get_params(deep=True)), snap.canon(state), pred)
 
 
 # ---------------------------------------------------------------------------------------------------
 # C05: one pool case, one candidate mode
-def pool_side_effects(case, mode, seed, n_queries=2, check_clone=True):
-    """Snapshot before / after every query: input arrays, get_params(deep=True), caller's models,
-    pickling, clone twin."""
+FIT_FLAGS = ("fit_clf", "fit_reg", "fit_ensemble")
+
+
+def has_fit_flag(case):
+    try:
+        kw = case.query_kwargs(case.data(0), case.models(), case.cand_modes[0])
+    except Exception:
+        return False
+    return any(f in kw for f in FIT_FLAGS)
+
+
+def _prefit_variant(kw, variant):
+    """`fit_<model>=False` with a model the caller has fitted: the query must use it as it is.
+    variant 'prefit' keeps sample_weight, 'prefit-nosw' drops it. Returns False if not applicable."""
+    flags = [f for f in FIT_FLAGS if f in kw]
+    if not flags:
+        return False
+    sw = kw.get("sample_weight")
+    for name, m in _models_in(kw).items():
+        for est in (m if isinstance(m, (list, tuple)) else [m]):
+            if sw is not None:
+                try:
+                    _call(est.fit, X=kw["X"], y=kw["y"], sample_weight=sw)
+                    continue
+                except TypeError:
+                    pass
+            _call(est.fit, X=kw["X"], y=kw["y"])
+    for f in flags:
+        kw[f] = False
+    if variant == "prefit-nosw":
+        kw.pop("sample_weight", None)
+        kw.pop("sample_weight_candidates", None)
+    return True
+
+
+def pool_side_effects(case, mode, seed, n_queries=2, check_clone=True, variant=None):
+    """Snapshot before / after every query: input arrays, get_params(deep=True), caller's models
+    (parameters, fitted attributes and, for pre-fitted models, predictions), pickling, clone twin."""
     findings = []
     qs = case.build()
     data = case.data(seed)
     models = case.models()
     kw = case.query_kwargs(data, models, mode)
+    if variant is not None:
+        try:
+            if not _prefit_variant(kw, variant):
+                return findings, dict(not_applicable=True)
+        except Exception as e:
+            return findings, dict(raised=f"prefit: {type(e).__name__}: {str(e)[:80]}")
+        check_clone = False
     arr0 = snap.arrays_snapshot(kw)
     par0 = snap.params_snapshot(qs)
-    mod0 = {k: _model_snapshot(v) for k, v in _models_in(kw).items()}
+    Xp = kw["X"] if variant is not None else None
+    mod0 = {k: _model_snapshot(v, Xp) for k, v in _models_in(kw).items()}
     pick0 = snap.pickles(qs)
     outs = []
     for q in range(n_queries):
@@ -70,8 +125,8 @@ def pool_side_effects(case, mode, seed, n_queries=2, check_clone=True):
         for k in snap.diff_keys(par0, par1):
             findings.append(dict(kind="param-write", name=k, what=f"get_params()['{k}'] changed during query #{q + 1}: {_short(par0.get(k))} -> {_short(par1.get(k))}"))
         for k, v in _models_in(kw).items():
-            if _model_snapshot(v) != mod0[k]:
-                findings.append(dict(kind="model-altered", name=k, what=f"query #{q + 1} altered the caller's `{k}` object (parameters or fitted attributes)"))
+            if _model_snapshot(v, Xp) != mod0[k]:
+                findings.append(dict(kind="model-altered", name=k, what=f"query #{q + 1} altered the caller's `{k}` object (parameters, fitted attributes or predictions)" + (f" [fit flag False, pre-fitted model, {'with' if 'sample_weight' in kw else 'without'} sample_weight]" if variant else "")))
         if findings:
             break
     pick1 = snap.pickles(qs)
